@@ -41,7 +41,8 @@ Fixpoint get_contracts (body : list tstmt) : list cexpr :=
   end.
 Inductive contract := KPure | KSafe | KHas (markers : list string) | KRaises | KOtherContract.
 Inductive cres := CSome (c : contract) | CNone | CCrash.    (* CCrash: _exec_contract itself raises AttributeError *)
-Definition deal_names : list string := ["pure"; "safe"; "has"; "raises"; "pre"; "post"; "ensure"; "reason"; "inv"; "chain"].
+(* DealLoader.SUPPORTED: the attributes of deal that module_load accepts (anything else is never looked up, let alone called) *)
+Definition deal_names : list string := ["pure"; "safe"; "has"; "raises"].
 (* DealLoader._get_deal_attr: the attribute of the deal package a node names *)
 Definition deal_attr (e : cexpr) : cres :=
   match e with
@@ -132,6 +133,6 @@ Definition istep (s : istate) (a : iaction) : istate * string :=
   | ASetEnabled b => ({| meta_path := meta_path s; enabled := b; loaded := loaded s |}, "enabled=" ++ show_bool b)
   end.
 Fixpoint irun (s : istate) (l : list iaction) : list string :=
-  match l with [] => [] | a :: t => let (s1, o) := istep s a in (o ++ " active=" ++ show_bool (active s1)) :: irun s1 t end.
+  match l with [] => [] | a :: t => let (s1, o) := istep s a in (o ++ " active=" ++ show_bool (active s1) ++ " enabled=" ++ show_bool (enabled s1)) :: irun s1 t end.
 Definition istate0 : istate := {| meta_path := [PathFinderF]; enabled := true; loaded := [] |}.
 Definition show_imports (l : list iaction) : string := join "|" (irun istate0 l).
